@@ -27,6 +27,11 @@ impl RelativeJump {
         (ip as isize + self.0 as isize) as usize
     }
 
+    #[cfg(feature = "verif_hooks")]
+    pub fn verif_raw(&self) -> i32 {
+        self.0
+    }
+
     #[cfg(test)]
     pub fn from_i32(i: i32) -> Self {
         RelativeJump(i)
